@@ -45,14 +45,19 @@ Theorem C18_splitlines_join : forall ls, Forall (fun l => Clean l /\ l <> []) ls
 Proof. exact splitlines_join. Qed.
 Print Assumptions C18_splitlines_join.
 
+(* ... and so does the parser's own splitter (newlines and carriage returns only, since fix F28), which the re-parse relies on *)
+Theorem C18_srclines_join : forall ls, Forall (fun l => Clean l /\ l <> []) ls -> srclines (join_nl ls) = ls.
+Proof. exact srclines_join. Qed.
+Print Assumptions C18_srclines_join.
+
 (* the display in terms of the DOCSTRING (prose included): with prompts and wants, without colours or numbers, it is the
    docstring's source and want lines chunk by chunk, each chunk de-indented by the indentation of its first line,
    prose left out -- for every tokenizer oracle and every ast oracle that reports statement starts inside the source *)
 Theorem C18_display_is_docstring : forall o s items off lineno,
   AstInRange o -> parse o s = Parsed items -> Forall ShownOK (parts_of items) ->
   exists (ll : list (label * str)) gs,
-    length ll = length (splitlines (normalize_docstring s)) /\
-    Forall2 SameLineUpToHack ll (splitlines (normalize_docstring s)) /\
+    length ll = length (srclines (normalize_docstring s)) /\
+    Forall2 SameLineUpToHack ll (srclines (normalize_docstring s)) /\
     flatten_chunks gs = map snd ll /\
     format_src (parts_of items) false true off true false lineno = join_nl (concat (map chunk_shown gs)).
 Proof. exact display_is_docstring. Qed.
@@ -64,7 +69,7 @@ Print Assumptions C18_display_is_docstring.
 Theorem C18_reparse_partial : forall o ind exs s items off lineno,
   AstInRange o -> exs <> [] -> Forall (fun e => ex_ind e = ind) exs ->
   Chain (o_bal o) TEXT O (map BEx exs) ->
-  splitlines (normalize_docstring s) = exs_lines exs ->
+  srclines (normalize_docstring s) = exs_lines exs ->
   Forall LineOK (exs_lines (map ex0 exs)) ->
   parse o s = Parsed items ->
   format_src (parts_of items) false true off true false lineno = join_nl (exs_lines (map ex0 exs)) /\
@@ -77,7 +82,7 @@ Print Assumptions C18_reparse_partial.
 Theorem C18_reparse_prose_around_partial : forall o ind exs p0 p1 s items off lineno,
   AstInRange o -> exs <> [] -> Forall (fun e => ex_ind e = ind) exs ->
   Chain (o_bal o) TEXT O (BProse p0 :: map BEx exs ++ [BProse p1]) ->
-  splitlines (normalize_docstring s) = concat (map block_lines (BProse p0 :: map BEx exs ++ [BProse p1])) ->
+  srclines (normalize_docstring s) = concat (map block_lines (BProse p0 :: map BEx exs ++ [BProse p1])) ->
   Forall LineOK (exs_lines (map ex0 exs)) ->
   parse o s = Parsed items ->
   format_src (parts_of items) false true off true false lineno = join_nl (exs_lines (map ex0 exs)) /\
@@ -95,7 +100,7 @@ Theorem C18_reparse_sections_partial : forall o secs pend s items off lineno,
   Forall (fun sec => s_exs sec <> [] /\ Forall (fun e => ex_ind e = s_ind sec) (s_exs sec)) secs ->
   WantEndsS secs ->
   Chain (o_bal o) TEXT O (doc_blocks secs pend) ->
-  splitlines (normalize_docstring s) = concat (map block_lines (doc_blocks secs pend)) ->
+  srclines (normalize_docstring s) = concat (map block_lines (doc_blocks secs pend)) ->
   Forall LineOK (exs_lines (map ex0 (all_exs secs))) ->
   parse o s = Parsed items ->
   format_src (parts_of items) false true off true false lineno = join_nl (exs_lines (map ex0 (all_exs secs))) /\
